@@ -399,8 +399,7 @@ class Runner(object):
                                   'converted function(s) %s on the call path have no / several entries: %s' % (
                                       ['f%d' % i for i in bad], got), w)
                 else:
-                    raise common.MachineryError('transcription imprecise: observed %s, predicted %s, clauses hold\n%s' % (
-                        got, exp, mod['r']['U']))
+                    self.imprecise.append('observed %s, predicted %s, clauses hold\n%s' % (got, exp, mod['r']['U']))
         else:
             fl_got = [[bool(f.is_converted), bool(f.is_allowlisted)] for f in ts if f.filename in inv]
             fl_exp = [[f['conv'], f['allow']] for f in rec['stack'] if f['file'] in ('U', 'A')]
@@ -440,6 +439,7 @@ class Runner(object):
         rep.sample(dict(chain=chain, nest=nest, tail=tail, k=k, kind=rec['kind'], observed_type=t1.__name__, user_frames=got))
 
     shape_mismatch = []
+    imprecise = []
 
 
 def _is_subseq(a, b):
@@ -449,7 +449,7 @@ def _is_subseq(a, b):
 
 def _run(rep, tier, only=None):
     from malt.core import config
-    root = common.scratch('c12')
+    root = common.scratch('c12_%d' % os.getpid())   # concurrent runs (mutants, other tiers) must not share it
     gen = os.path.join(root, 'gen')
     os.makedirs(gen)
     old_tmp = tempfile.tempdir
@@ -459,6 +459,7 @@ def _run(rep, tier, only=None):
     mods = Modules(root)
     run = Runner(rep, mods)
     run.shape_mismatch = []
+    run.imprecise = []
     workers = 8 if tier == 'quick' else 16
     try:
         # frames mode: the scan on every short frame sequence
@@ -511,7 +512,10 @@ def _run(rep, tier, only=None):
                     run.scenario(r, twin=True)
                     nsc += 1
                 rep.set('twin_file_scenarios', len(tw))
-        if run.shape_mismatch:
+        # model-precision problems are only a verdict of their own when nothing the statement demands failed
+        if run.imprecise and not rep.violations:
+            raise common.MachineryError('transcription imprecise in %d scenario(s): %s' % (len(run.imprecise), run.imprecise[0]))
+        if run.shape_mismatch and not rep.violations:
             cl, spec_cl, key = run.shape_mismatch[0]
             raise common.MachineryError('model of the converted run traceback is wrong in %d scenario(s), e.g. %s:\n real %s\n spec %s' % (
                 len(run.shape_mismatch), key, cl, spec_cl))
